@@ -146,8 +146,11 @@ def gen_user(rng):
     nt = rng.choice([60, 120, 200])
     tb = rng.random()
     words = []
-    for _ in range(nt):
+    while len(words) < nt:
         k = rng.random()
+        if k < 0.06:
+            words += G.macro(rng, rng.random() < tb)
+            continue
         if k < 0.5:
             w = priv_word(rng, rng.random() < tb)
             if rng.random() < 0.2:
@@ -160,6 +163,7 @@ def gen_user(rng):
             if th and w <= 0xFFFF:
                 w = w << 16 | 0xBF00
         words.append(w)
+    words = words[:nt]
     events = []
     for _ in range(rng.randrange(0, max(1, nt // 20)) if rng.random() > 0.3 else 0):
         t = rng.randrange(1, nt)
